@@ -181,7 +181,7 @@ def run(ctx):
     if ctx.tier == 'quick':
         core.run_sharded(ctx, __name__, 'shard', 1, (1500,))
     else:
-        core.run_sharded(ctx, __name__, 'shard', getattr(ctx, 'shards_override', None) or 16, (8000,))
+        core.run_sharded(ctx, __name__, 'shard', getattr(ctx, 'shards_override', None) or 16, (16000,))
 
 
 def extra_evidence(ctx):
